@@ -38,7 +38,7 @@ type c11Knobs struct {
 const c11SafeDepth = 150000
 
 const (
-	c11NBase = 30
+	c11NBase = 33
 	c11NMut  = 15
 )
 
@@ -99,7 +99,10 @@ var c11SearchKeys = []string{"ALL", "SEEN", "UNSEEN", "DELETED", "SUBJECT garbag
 	"LARGER 10", "SMALLER 100000", "NOT SEEN", "OR SEEN DELETED", "(SEEN FLAGGED)", "UID 1:*", "1:3", "HEADER Subject garbage", "KEYWORD foo", "TEXT dog", "(OR (SEEN) (NOT DELETED)) ALL"}
 
 var c11FetchItems = []string{"FLAGS", "UID", "ALL", "FAST", "FULL", "ENVELOPE", "BODYSTRUCTURE", "BODY", "RFC822.SIZE", "INTERNALDATE", "BODY[]", "BODY.PEEK[HEADER]",
-	"BODY[TEXT]<0.10>", "BODY[1]", "BODY.PEEK[HEADER.FIELDS (Subject From)]", "BODY.PEEK[HEADER.FIELDS.NOT (To)]", "RFC822", "RFC822.HEADER", "RFC822.TEXT", "BODY[1.MIME]", "BODY.PEEK[]<5.100>"}
+	"BODY[TEXT]<0.10>", "BODY[1]", "BODY.PEEK[HEADER.FIELDS (Subject From)]", "BODY.PEEK[HEADER.FIELDS.NOT (To)]", "RFC822", "RFC822.HEADER", "RFC822.TEXT", "BODY[1.MIME]", "BODY.PEEK[]<5.100>",
+	// partials at the edges of the integer types
+	"BODY.PEEK[]<9223372036854775807.5>", "BODY.PEEK[]<9223372036854775808.1>", "BODY.PEEK[]<9223372036854775809.1>", "BODY.PEEK[]<1.9223372036854775808>",
+	"BODY.PEEK[]<4294967295.4294967295>", "BODY.PEEK[]<4294967296.1>", "BODY.PEEK[TEXT]<18446744073709551615.1>", "BODY.PEEK[]<2147483648.2147483648>"}
 
 // c11Valid builds one well-formed command (with its tag and CRLF).
 func c11Valid(kind int, r *core.Rand, tag string, kn c11Knobs) []byte {
@@ -205,6 +208,27 @@ func c11Valid(kind int, r *core.Rand, tag string, kn c11Knobs) []byte {
 			return []byte("DONE\r\n")
 		}
 		s = "CHECK"
+	case 32:
+		// a mailbox that holds messages
+		s = c11Pick(r, []string{"SELECT", "SELECT", "EXAMINE"}) + " " + c11Pick(r, []string{"INBOX", "inbox"}) // (not the bystander's mailbox: that one must stay as it is)
+	case 30, 31:
+		// numbers at the edges of the integer types where a message set, a partial or a
+		// size is expected (all syntactically numbers)
+		edge := func() string {
+			return c11Pick(r, []string{"2147483647", "2147483648", "4294967295", "4294967296", "9223372036854775807", "9223372036854775808", "9223372036854775809", "18446744073709551615", "18446744073709551616"})
+		}
+		switch r.Intn(5) {
+		case 0:
+			s = "FETCH 1:* (BODY.PEEK[]<" + edge() + "." + c11Pick(r, []string{"1", "100", edge()}) + ">)"
+		case 1:
+			s = "FETCH 1 (BODY.PEEK[TEXT]<" + c11Pick(r, []string{"0", "1", edge()}) + "." + edge() + ">)"
+		case 2:
+			s = "UID FETCH 1:" + edge() + " (FLAGS)"
+		case 3:
+			s = "SEARCH " + c11Pick(r, []string{"LARGER", "SMALLER", "UID", ""}) + " " + edge()
+		default:
+			s = "FETCH " + edge() + " (FLAGS)"
+		}
 	}
 	return []byte(tag + " " + s + "\r\n")
 }
